@@ -14,14 +14,14 @@ Set Default Timeout 60.
 Lemma K_cell_write ih ivs s s2 r e' w :
   K ih ivs s ->
   k_vot s2 = k_vot s -> k_nxt s2 = k_nxt s -> k_com s2 = k_com s -> frame_eq s s2 ->
-  st_log s2 = st_log s ++ [w] -> stores_of s2 = apply_wr (stores_of s) w ->
+  st_log s2 = st_log s ++ [w] -> ends_hdr [w] = false -> stores_of s2 = apply_wr (stores_of s) w ->
   stores_of s2 = mk_stores (sr_nhr (stores_of s)) (sr_hdrs (stores_of s))
                    (rs_set (sr_rounds (stores_of s)) (v_h (k_vot s)) r e') (sr_replayed (stores_of s)) ->
   rentry_good ih (vs_keys (chain_vals ih ivs (st_hdrs s) (v_h (k_vot s)))) (st_hdrs s) (v_h (k_vot s)) r e' ->
   (pc_ne (st_rounds s) (v_h (k_vot s)) r -> exists pkh en l, re_pc e' = Some (pkh, en :: l)) ->
   K ih ivs s2 /\ pref ih ivs s s2.
 Proof.
-  intros (HI&HP&(Xc&Xn&(N1v&N1n)&Xk&Xs)) Ev En Ec F Hlog Hst Est Hgood Hpc.
+  intros (HI&HP&(Xc&Xn&(N1v&N1n)&Xk&Xs)) Ev En Ec F Hlog Hw Hst Est Hgood Hpc.
   pose proof (cinv_nhr _ _ _ (proj1 HI)) as Hnhr.
   destruct (com_below _ _ _ (proj1 HI)) as [Hlt _].
   assert (S2 : SI ih ivs (stores_of s2)).
@@ -32,7 +32,7 @@ Proof.
     destruct ((v_h (k_vot s) =? h0) && (r =? r0)) eqn:E; [|exact Hc0].
     apply andb_true_iff in E as [A B]. apply N.eqb_eq in A, B. subst h0 r0. apply Hpc. exact Hc0. }
   split; [|eapply pref_one; [exact Hlog|exact Hst|exact Xs|exact S2|
-             eapply adv_sadv; [exact (proj1 HI)|eapply cinv_frame; [exact F|exact (proj1 HI)]|apply adv_frame; exact F]]].
+             eapply adv_sadv; [exact (proj1 HI)|eapply cinv_frame; [exact F|exact (proj1 HI)]|apply adv_frame; exact F]|exact Hw]].
   split; [eapply INV_frame_rounds; eassumption|].
   split; [eapply pok_frame; [rewrite Ev; reflexivity|rewrite En; reflexivity|exact HP]|].
   split; [eapply comvals_frame; eassumption|].
